@@ -253,6 +253,11 @@ def c17_codec(stream, res, impl):
                     k += 1
                 return "stream of %d messages cut at %s delivered %d messages (first difference at message %d)" % (
                     len(written), kv.get("cuts", ""), len(got), k)
+        if t[1] == "http" and _kv(op).get("drop") == "1":
+            h = _kv(out).get("handled")
+            if h not in (None, "1"):
+                return "one message was written over HTTP; the server read and handled it %s times (the reply was lost once)" % h
+            continue
         if t[1] == "http" and "reqlen" in _kv(op):
             kv = _kv(op)
             ms, mc, rl, pl = int(kv["maxs"]), int(kv["maxc"]), int(kv["reqlen"]), int(kv.get("resplen", "0"))
@@ -268,7 +273,27 @@ def c17_codec(stream, res, impl):
     return None
 
 
+def c18_ethrpc(stream, res, impl):
+    if stream["component"] != "ethrpc":
+        return None
+    meth = {"connect": "admin_addPeer", "disconnect": "admin_removePeer", "trust": "admin_addTrustedPeer", "untrust": "admin_removeTrustedPeer"}
+    for op, out in zip(res, impl):
+        t = op.split()
+        if len(t) == 3 and t[1] in meth and out.startswith("sent "):
+            arg = "" if t[2] == "~" else t[2]
+            want = arg if arg.startswith("enode://") else "enode://" + arg
+            if out != "sent %s %s" % (meth[t[1]], want):
+                return "the agent asked its geth node to %s `%s`; the node's RPC endpoint received `%s`" % (t[1], arg, out[5:])
+    return None
+
+
 def c18_agent(stream, res, impl):
+    if stream["component"] == "ethrpc":
+        return c18_ethrpc(stream, res, impl)
+    return _c18_agent(stream, res, impl)
+
+
+def _c18_agent(stream, res, impl):
     """a failed keep-alive makes no node call; non-strict rounds drop exactly the pool's invalid peers"""
     if stream["component"] != "agent":
         return None
@@ -336,6 +361,8 @@ def c14_rpc(stream, res, impl):
             got = out.split(" ", 1)[1]
             if i is None or sent.get(i, (None, None)) != ("result", got):
                 return "call %s (id %s) returned %r but the reply sent for its id was %r" % (t[2], i, got, sent.get(i))
+        elif t[1] == "localrelay" and out != "ok answered=inner":
+            return "a handler reached through an in-process Local called back over the service in its context and was answered by %s: that service is not the one the request arrived on" % out
         elif t[1] == "request" and "wrong-service-in-context" in out:
             return "a handler obtained a service from its context that is not the connection the request arrived on"
         elif t[1] == "storm":
@@ -350,6 +377,26 @@ def c13_persist(stream, res, impl):
     """a dump taken right after a reopen equals the dump taken right before it; readers never see a moving total"""
     if stream["component"] != "persist":
         return None
+    for op, out in zip(res, impl):
+        t = op.split()
+        if len(t) > 1 and t[1] == "golden" and out.startswith("ok B["):
+            try:
+                b = out[out.index("B[") + 2:out.index("] L[")]
+                l = out[out.index("L[") + 2:out.index("] trials=")] if "] trials=" in out else out[out.index("L[") + 2:].split(" trials=")[0].rstrip("]")
+                links = {}
+                for e in l.split(","):
+                    if "<" in e:
+                        a, ids = e.split("<", 1)
+                        links[a] = [x for x in ids.split("+") if x]
+                for e in b.split(","):
+                    if "=" in e:
+                        nid, rest = e.split("=", 1)
+                        acct = rest.split("/")[0]
+                        if acct != "~" and nid not in links.get(acct, []):
+                            return ("a database in the current format, written key by key as earlier builds wrote it: after opening, node %s spends from wallet %s "
+                                    "(GetNodeBalance) but the wallet's node list does not contain it (%s): the link was not read back" % (nid, acct, l))
+            except ValueError:
+                pass
     last_dump = None
     after_reopen = False
     prepared = None
@@ -431,11 +478,25 @@ def c02_billing(stream, res, impl):
                     n = len(peers)
                     if who in peers:
                         n -= 1  # the client credits and debits itself for its own entry
+                    # credits the store refused (fault injection) are not charged
+                    failed = [x for x in kv.get("failpeer", "").split(",") if x and x in peers and x != who]
+                    n -= len(set(failed))
+                    if kv.get("fail"):
+                        continue
                     want = -credit * n
                     got = d["nb"][who][1] - prev["nb"][who][1]
                     if credit != 0 and got != want:
                         return "keep-alive of %s: elapsed %d ns x price %d / interval %d = %d per peer, %d active peers: debit should be %d, balance moved by %d" % (
                             who, el, price, interval, credit, len(peers), -want, got)
+            # a keep-alive reported as failed (other than cut off for its balance, which keeps the charge, or a failing
+            # deposit read-back after the charge) moved nothing: all or nothing
+            if d is not None and prev is not None and between and between[-1][0].split()[1] == "update" \
+                    and all(bo.split()[1] == "setnode" for bo, _ in between[:-1]) \
+                    and between[-1][1].startswith("err ") and not between[-1][1].startswith(("err LowBalance", "err DepositLookup")):
+                moved = [n for n in d["nb"] if n in prev["nb"] and d["nb"][n][1] != prev["nb"][n][1]]
+                if moved:
+                    return "keep-alive of %s failed (%s) yet balances moved: %s" % (
+                        between[-1][0].split()[2], between[-1][1][:60], ", ".join("%s %d -> %d" % (n, prev["nb"][n][1], d["nb"][n][1]) for n in moved))
             # a (re)connect restarts the billing clock: the elapsed time of the next keep-alive counts from it
             if d is not None and len(between) == 1 and between[0][0].split()[1] == "connect" and between[0][1] == "ok":
                 bt = between[0][0].split()
@@ -473,7 +534,24 @@ def _registry_sim(res, impl):
         yield t, out, dict(reg)
 
 
+def c09_conn(stream, res, impl):
+    if stream["component"] != "fuzz":
+        return None
+    for op, out in zip(res, impl):
+        t = op.split()
+        if len(t) > 1 and t[1] == "strayclose" and "remotes-after-close" in out:
+            kv = _kv(out)
+            return "a host sent a reply nobody was waiting for and closed its connection: the pool still counts %s connected hosts (%s before the close)" % (kv.get("remotes-after-close"), kv.get("remotes-before"))
+    return None
+
+
 def c09_registry(stream, res, impl):
+    if stream["component"] == "fuzz":
+        return c09_conn(stream, res, impl)
+    return _c09_registry(stream, res, impl)
+
+
+def _c09_registry(stream, res, impl):
     """NumRemotes = hosts with a live registration; whitelist/disconnect calls only go to such connections"""
     if stream["component"] == "poolbin":
         reg, refusing = {}, set()
@@ -788,7 +866,7 @@ def c11_expiry(stream, res, impl):
 def c16_surface(stream, res, impl):
     """only registered names are callable, and never with a parameter count the declaration does not admit; a refused
     call does not run the method"""
-    if stream["component"] != "srv":
+    if stream["component"] not in ("srv", "srvbin"):
         return None
     table = {}
     for op, out in zip(res, impl):
@@ -809,6 +887,8 @@ def c16_surface(stream, res, impl):
                     continue
                 table.setdefault(pre + rpc, [x for x in types.split(".") if x])
         elif t[1] == "call" and len(t) >= 4:
+            if out == "noop" or "#skipped" in op:
+                continue  # not sent (the library client cannot produce this parameter shape)
             name = "" if t[2] == "~" else t[2]
             tok = t[3]
             ran = _kv(out).get("inv", "0") != "0"
@@ -826,7 +906,7 @@ def c16_surface(stream, res, impl):
             else:
                 k = len(tok.split("."))
             bad = k is None or k > len(types) or any(not ty.startswith("p") for ty in types[k:])
-            if bad and (out.startswith("result") or ran):
+            if bad and (out.startswith("result") or ran or out == "ran"):
                 return ("`%s` declares %d parameter(s) (%s); a call with %s was carried out: %s -> %s"
                         % (name, len(types), ".".join(types) or "none", "non-array params" if k is None else "%d parameter(s)" % k, op, out))
     return None
@@ -836,6 +916,12 @@ _HOSTPORT = re.compile(r"^(\[[^\[\]]+\]|[^:\[\]]+):(\d+)$")
 
 
 def c19_advertised(stream, res, impl):
+    if stream["component"] == "conc":
+        return c19_noderace(stream, res, impl)
+    return _c19_advertised(stream, res, impl)
+
+
+def _c19_advertised(stream, res, impl):
     """every host the pool stores/advertises carries its own id and an address that splits into host and port"""
     if stream["component"] == "uri":
         for op, out in zip(res, impl):
@@ -895,6 +981,8 @@ def c20_life(stream, res, impl):
             continue
         if t[1] == "reset":
             loops = 0
+        elif t[1] == "run" and len(t) > 2 and t[2] == "slow" and "cadence=drift" in out:
+            return "with a pool that answers after half an interval the agent's keep-alives drift apart: %s (one per interval expected)" % out
         elif t[1] == "start" and len(t) > 2:
             if loops == 1 and not out.startswith("err AlreadyStarted"):
                 return "a second start while the loop is running was not refused: %s" % out
@@ -984,6 +1072,8 @@ def c03_binary(stream, res, impl):
             minb = None if kv.get("min") == "off" else _ether_flag(kv.get("min", ""))
             price = _ether_flag(kv.get("price", ""))
             bal = {}
+        elif t[1] == "kbillhangup" and minb is not None and minb >= 0 and price and out == "sent disc=":
+            return "minimum balance `%s`: client %s was billed below it by a keep-alive (it hung up before the reply); no host was asked to disconnect it" % (flagmin, t[2])
         elif t[1] == "kbill" and "cur" in _kv(op):
             cur = int(_kv(op)["cur"])
             bal[t[2]] = cur
@@ -1007,3 +1097,36 @@ def c02_binary(stream, res, impl):
     if stream["component"] == "poolbin":
         return c03_binary(stream, res, impl)
     return c02_billing(stream, res, impl)
+
+
+def c15_binary(stream, res, impl):
+    """the built pool binary answers every request and keeps serving the other connections whatever one caller sent"""
+    if stream["component"] != "poolbin":
+        return None
+    last = None
+    for op, out in zip(res, impl):
+        t = op.split()
+        if len(t) < 2:
+            continue
+        if t[0] == "case":
+            last = None
+        if t[1] == "hosthttp":
+            last = op
+            if out == "no-reply":
+                return "a correctly signed vipnode_connect of a full node sent over plain HTTP received no reply at all (the connection was closed on it)"
+        elif out in ("err transport", "err timeout") and last is not None:
+            return "after `%s` the pool binary stopped answering: `%s` -> %s" % (last, op, out)
+    return None
+
+
+def c19_noderace(stream, res, impl):
+    if stream["component"] != "conc":
+        return None
+    for op, out in zip(res, impl):
+        t = op.split()
+        if len(t) > 1 and t[1] == "noderace":
+            kv = _kv(out)
+            if kv.get("rounds-with-stale-record", "0") != "0":
+                return ("a host re-registered from a new address while its keep-alive was being processed; both were acknowledged, and in %s of the rounds the "
+                        "pool still stores (and hands out) the previous address (%s)" % (kv["rounds-with-stale-record"], kv.get("first", "")))
+    return None
